@@ -57,6 +57,23 @@ def run(ctx):
         t.f["accessList"] = [(rbytes(rng, 20), [rbytes(rng, 32) for _ in range(rng.choice([0, 0, 1, 2]))]) for _ in range(n)]
         txs.append(t)
     docs = [txgen.render(rng, t) for t in txs]
+    # legacy chain ids just above the largest one whose v = 35 + 2c + parity fits 256 bits: refused at parsing, whatever the
+    # signature's parity would have been (just below: both parities encode exactly — the loop below checks those)
+    LMAX = ((1 << 256) - 37) // 2
+    for c in (LMAX - 1, LMAX):
+        for _ in range(3):
+            t = txgen.rand_tx(rng, kind=0, chain=c, small=True)
+            txs.append(t)
+            docs.append(txgen.render(rng, t))
+    over = []
+    for c in (LMAX + 1, LMAX + 2, LMAX + 18, LMAX + 19, (1 << 255), (1 << 256) - 1):
+        t = txgen.rand_tx(rng, kind=0, chain=c, small=True)
+        over.append((c, txgen.render(rng, t)))
+    for (c, d), p in zip(over, txprobe.run_docs(ctx, [d for _, d in over], "C06over", clause="tx-vs-model")):
+        ctx.count("legacy-chain-id-above-the-bound")
+        ctx.distinct(d)
+        if p.enc.tag == "ok" or p.parse.tag == "ok":
+            ctx.violation("chain-id-too-large-refused", dict(op="Transaction (legacy)", chain_id=c, document=short(d, 200)), "refused", dict(encode=p.enc.tag, parse=p.parse.tag))
     probes = txprobe.run_docs(ctx, docs, "C06", clause="tx-vs-model")
     for t, d, p in zip(txs, docs, probes):
         case = dict(op="Transaction::encode / signing_message", kind=t.kind, document=short(d, 300))
